@@ -17,7 +17,9 @@ correspondence family (harness/props/C01.py).
 import ast
 import os
 
-MODULES = ["utils", "terms", "queries", "dialects", "functions", "analytics"]
+MODULES = ["utils", "terms", "queries", "dialects", "functions", "analytics",
+           "array", "type_conversion", "search_string", "condition", "nullable_arg"]
+MODULE_PATH = {m: os.path.join("clickhouse", m) for m in ("array", "type_conversion", "search_string", "condition", "nullable_arg")}
 
 MUTATORS = {"append", "extend", "add", "remove", "insert", "pop", "clear", "update", "discard", "sort", "reverse",
             "setdefault", "popitem", "difference_update", "intersection_update", "symmetric_difference_update",
@@ -47,7 +49,7 @@ class ExtractError(Exception):
 
 
 def _loc(mod, node):
-    return "pypika/%s.py:%s" % (mod, getattr(node, "lineno", "?"))
+    return "pypika/%s.py:%s" % (MODULE_PATH.get(mod, mod), getattr(node, "lineno", "?"))
 
 
 # ----------------------------------------------------------------------------------------------
@@ -69,7 +71,7 @@ class Index:
         self.repo = repo
         self.trees, self.ns, self.classes = {}, {}, {}
         for mod in MODULES:
-            path = os.path.join(repo, "pypika", mod + ".py")
+            path = os.path.join(repo, "pypika", MODULE_PATH.get(mod, mod) + ".py")
             with open(path) as f:
                 src = f.read()
             self.trees[mod] = ast.parse(src, path)
@@ -367,6 +369,8 @@ class Analyzer:
         env = self._bind_params(fn, None, None, entry=True)
         env[fn.args.args[0].arg] = [SELF]
         self._run_fn(q, defc, fn, env, depth=0, stack=[(defc, mname)], top=True)
+        if delegate and all(isinstance(st, ast.Raise) for st in _strip_doc(fn.body)):
+            return [], ("self",)        # the override rejects the call outright (raise only): no effect, no result
         if delegate:
             vals = [v for vs, _ in self.returns for v in vs]
             if not self.builder_calls or not vals or any(v != SELFCOPY for v in vals):
@@ -394,6 +398,8 @@ class Analyzer:
                     kinds.append(("new", v.cls, tuple(sorted(flds.items()))))
                 elif isinstance(v, tuple) and v[0] == "attr" and v[1] == SELF:
                     kinds.append(("via", v[2]))
+                elif isinstance(v, tuple) and v[0] == "callcopy":
+                    kinds.append(("call", v[1], v[2]))
                 else:
                     raise ExtractError("%s.%s: unrecognised return value %s" % (q, mname, ast.unparse(node) if node else v))
         kinds = _uniq(kinds) or [("self",)]
@@ -557,7 +563,7 @@ class _Frame:
             for b in self.ev(e.value):
                 if isinstance(b, Fresh):
                     out += b.fields.get(e.attr, [OTHER])
-                elif b in (OTHER, ("none",)):
+                elif b in (OTHER, ("none",)) or (isinstance(b, tuple) and b[0] == "callcopy"):
                     out.append(OTHER)
                 elif b == SELFCOPY:
                     out.append(("attr", SELFCOPY if getattr(self.an, "delegate", False) else SELF, e.attr))
@@ -758,6 +764,9 @@ class _Frame:
             # object, so only its writes to arguments matter here; the (class, method) pair itself has its own table row
             env[fn.args.args[0].arg] = [Fresh(cls, {})]
             self.an._run_fn(cls, defc, fn, env, self.depth + 1, self.stack + [(defc, m)])
+            if isb and len(this_vals) == 1 and isinstance(this_vals[0], tuple) and this_vals[0][0] == "attr" \
+                    and this_vals[0][1] == SELF:
+                return [("callcopy", this_vals[0][2], m)]       # result of the @builder call self.<attr>.m(...)
             return [OTHER]
         if isb:
             self.an.in_builder += 1
@@ -1022,7 +1031,15 @@ def build_table(repo, strict=True):
                             effs.append((flds[rest], kind, attr))
                         elif strict:
                             raise ExtractError("%s.%s>%s: cannot re-target effect %r" % (rec["cls"], m["name"], wm, (tg, kind, attr)))
-                    if strict and not (wret[0] == "via" and flds.get(wret[1]) == "self"):
+                    if wret[0] == "call" and flds.get(wret[1]) == "self":
+                        # the wrapper finishes with  return self.<copy>.m2(...)  (a @builder call on the copy it holds):
+                        # m2's effects on its receiver are effects on (a further copy of) the copy; what m2 does to its
+                        # own parameters was already attributed through the wrapper's fields above
+                        ceffs, cret = guarded(lambda: an.analyse(rec["cls"], wret[2]), ([], ("self",)))
+                        if strict and cret != ("self",):
+                            raise ExtractError("%s.%s>%s: delegated method returns %r" % (rec["cls"], m["name"], wm, cret))
+                        effs += [e for e in ceffs if e[0] == "self"]
+                    elif strict and not (wret[0] == "via" and flds.get(wret[1]) == "self"):
                         raise ExtractError("%s.%s>%s: unexpected return %r" % (rec["cls"], m["name"], wm, wret))
                     extra.append({"name": "%s>%s" % (m["name"], wm), "copies": True, "effects": _uniq(effs), "ret": ("self",),
                                   "composite": (m["name"], wq, wm)})
@@ -1078,6 +1095,8 @@ def _ret(r):
         return "(RNew %s)" % _cs(r[1])
     if r[0] == "via":
         return "(RVia %s)" % _cs(r[1])
+    if r[0] == "call":
+        return "(RCall %s %s)" % (_cs(r[1]), _cs(r[2]))
     raise ExtractError("bad ret %r" % (r,))
 
 
